@@ -159,8 +159,10 @@ def make_scheduler(cfg: str, form: Dict[str, str]):
     from reactivex.scheduler import CurrentThreadScheduler, ImmediateScheduler, TrampolineScheduler
     if cfg in ("cts", "src_cts"):
         return TrampolineScheduler() if form.get("cts") == "TrampolineScheduler" else CurrentThreadScheduler()
-    if cfg in ("imm", "src_imm"):
+    if cfg in ("imm", "src_imm", "imm_src_sing"):
         return ImmediateScheduler()
+    if cfg in ("sing", "src_sing"):
+        return CurrentThreadScheduler.singleton()
     if cfg == "vts":
         from reactivex.scheduler import HistoricalScheduler, VirtualTimeScheduler
         from reactivex.testing import TestScheduler
@@ -181,7 +183,7 @@ def applicable(scn: Dict[str, Any], form: Dict[str, str]) -> bool:
     # ... and a user who disposes inside the k-th on_next must see the same elements as with take(n)
     if scn.get("dsp") and form["take"] in ONE_ELEMENT and any(n["k"] == "take" and n["n"] != 1 for n in nd):
         return False
-    if cfg in ("src_cts", "src_imm") and "resched" in kinds and form["resched"] != "range":
+    if cfg in ("src_cts", "src_imm", "src_sing", "imm_src_sing") and "resched" in kinds and form["resched"] != "range":
         return False   # generate() takes no scheduler argument
     return True
 
@@ -388,8 +390,11 @@ def perform(scn: Dict[str, Any], form: Dict[str, str], profile: str = "plain", w
 
     cfg = scn["cfg"]
     sched = make_scheduler(cfg, form)
-    kw = {"scheduler": sched} if cfg in ("cts", "imm", "vts") else {}
-    src_sched = sched if cfg in ("src_cts", "src_imm") else None
+    kw = {"scheduler": sched} if cfg in ("cts", "imm", "vts", "sing", "imm_src_sing") else {}
+    src_sched = sched if cfg in ("src_cts", "src_imm", "src_sing") else None
+    if cfg == "imm_src_sing":      # everything immediate, the never-ending source pinned to the thread's current-thread scheduler
+        from reactivex.scheduler import CurrentThreadScheduler as _CTS
+        src_sched = _CTS.singleton()
     old_limit = sys.getrecursionlimit()
     sys.setrecursionlimit(max(old_limit, 20000))
     old = signal.signal(signal.SIGALRM, _alarm)
@@ -524,7 +529,7 @@ def variants(scn: Dict[str, Any], full: bool = False, rnd=None, cap: int = 24) -
     if scn["cfg"] == "vts":
         kinds.add("vts")
     base = default_form()
-    if scn["cfg"] in ("src_cts", "src_imm"):
+    if scn["cfg"] in ("src_cts", "src_imm", "src_sing", "imm_src_sing"):
         base["resched"] = "range"
     res = [(dict(base), "plain"), (dict(base), "falsy")]
     axes = [k for k in FORMS if k in kinds and len(FORMS[k]) > 1]
